@@ -3,7 +3,7 @@ from __future__ import annotations
 
 from typing import Dict, List, Optional
 
-from ..kit import Ctx, calls, calls_target, kw, loops, normal_paths, poly_of, rule, short, stores
+from ..kit import caller_ok, Ctx, calls, calls_target, kw, loops, normal_paths, poly_of, rule, short, stores
 from ..paths import Event, Path
 from ..terms import NONE, Term, key, poly_key, strip_ver, to_poly, _padd
 from .c04 import writer_allowlist
@@ -95,7 +95,7 @@ def r2(ctx: Ctx) -> None:
 @rule("C05.R3", "the logs of each matching round are applied exactly once, whole, before any party is notified", "T4 exactly-once + T5 ordering + T10 provenance", floor=2)
 def r3(ctx: Ctx) -> None:
     for s in ctx.cg.sites_calling(UPD):
-        ctx.check(s.caller.qualname == HO, s.caller, s.node, f"caller of {UPD}", HO, s.caller.qualname)
+        ctx.check(caller_ok(ctx, s.caller, lambda g: g.qualname == HO), s.caller, s.node, f"caller of {UPD}", HO, s.caller.qualname)
     f = ctx.func(HO)
     n = 0
     for p in ctx.paths(HO):
